@@ -154,6 +154,9 @@ def run(chk):
         chk.analysed(d)
         n_pairs += 1
         check_pair(chk, prog, eng, h, d)
+    from ..acccopy import run_acccopy
+    run_acccopy(chk, prog, "H5-state", hooks, lambda src: "/test/" not in src)
+    chk.floor("H5-state", 3)
     chk.floor("H1", 13)
     chk.floor("H2", 20)
     chk.floor("H3-retain", 5)
